@@ -111,7 +111,7 @@ def run_worker_block(binary, prop, tier, seed, part, start, count, extra, varian
                     for v in j["violations"]:
                         res.violations.append(dict(run=j["run"], cls=v["class"], site=v["site"], detail=v["detail"],
                                                    tags=v.get("tags", []), case=j.get("case"), variant=variant, part=part,
-                                                   rerun_same=j.get("rerun_same", True)))
+                                                   rerun_same=j.get("rerun_same", True), proc_start=pos, extra=list(extra)))
                 elif "sample" in j:
                     if len(res.samples) < 5:
                         res.samples.append(j["sample"])
@@ -369,3 +369,29 @@ def match_known(prop, v, known):
             continue
         return e
     return None
+
+
+def block_replay(variant, prop, tier, seed, part, start, run, cls=None, want_digest=False):
+    """Re-execute a worker from `start` up to and including `run` in a fresh process (a pure function of the
+    seed and the indices).  Returns (classes observed at `run`, digest of `run` or None)."""
+    binary = os.path.join(B.BUILD, variant, "simzone")
+    cmd = [binary, "worker", "--prop", prop, "--tier", tier, "--seed", str(seed), "--start", str(start), "--count", str(run - start + 1)]
+    if part:
+        cmd += ["--part", part]
+    if want_digest:
+        cmd += ["--digests"]
+    try:
+        p = subprocess.run(cmd, capture_output=True, text=True, env=_env(), timeout=1800, errors="replace")
+    except subprocess.TimeoutExpired:
+        return ["machinery:block-replay-timeout"], None
+    classes, digest = [], None
+    for j in parse_lines(p.stdout):
+        if j.get("run") == run and "violations" in j:
+            classes += [v["class"] for v in j["violations"]]
+        elif "crash" in j and j.get("run") == run:
+            classes.append(classify_crash(j, p.stderr)[0])
+        elif j.get("done"):
+            for d in j.get("digests", []):
+                if d[0] == run:
+                    digest = d[1]
+    return classes, digest
